@@ -9,7 +9,7 @@ PROP = "C20"
 THEOREMS = ["C20_model_smoke", "C20_heartbeat_is_clamped", "C20_heartbeat_zero_is_max", "C20_heartbeat_in_range_kept", "C20_connect_deadline_exact",
             "C20_auth_deadline_exact", "C20_handshake_in_time_no_timeout", "C20_idle_is_pinged_within_two_intervals", "C20_ping_timeout_exact",
             "C20_ping_then_wait_three_intervals", "C20_active_is_never_pinged", "C20_stale_pong_gets_closed", "C20_closed_is_final",
-            "C20_fuel_is_adequate", "C20_output_times_bounded"]
+            "C20_fuel_is_adequate", "C20_output_times_bounded", "C20_refused_attempt_keeps_auth_deadline", "C20_refused_attempt_example"]
 PRELUDE = "From NW Require Import Base.Bytes Model.Timers Conf.CodecConf Conf.TimerConf.\n"
 
 
@@ -42,6 +42,13 @@ def scenario(r, directed):
     cfg = mk_cfg(r)
     ops = []
     t = r.choice([0, 100, 250])
+    if r.random() < 0.3:
+        cfg["mod"] = dict(sl.MOD_CONFIGS[-1])      # modulator-delegated authentication
+    else:
+        # connection 2 takes the name "holder" first and keeps answering its pings out of the picture (long keep-alive)
+        ops.append({"t": "open", "k": 2, "tin": "PRE"})
+        ops.append({"t": "send", "k": 2, "bytes": sl.frame("CONNECT", [("version", 1), ("heartbeat_interval", 0)]).hex(), "tin": "PRE"})
+        ops.append({"t": "send", "k": 2, "bytes": sl.frame("IDENTIFY", [("username", "holder")]).hex(), "tin": "PRE"})
     ops.append({"t": "until", "ms": t, "tin": "IObserve"})
     ops.append({"t": "open", "k": 1, "tin": "OPEN"})
     ct, at = cfg["connect_timeout_ms"], cfg["auth_timeout_ms"]
@@ -70,9 +77,28 @@ def scenario(r, directed):
             if p > tcur + 5:
                 ops.append({"t": "until", "ms": p, "tin": "IObserve"})
         return cfg, ops
+    if x < 0.5:
+        # attempts that are answered but do not authenticate (the name is held by connection 2; with modulator
+        # authentication: a failure or a challenge), then silence: the authentication deadline still stands
+        for _ in range(r.choice([1, 1, 2])):
+            tcur += r.choice([10, 40, 120])
+            if tcur >= tc + at - 15:
+                break
+            if cfg["mod"]:
+                act(ops, tcur, {"t": "send", "k": 1, "bytes": sl.frame("AUTH", [("token", "tok")]).hex(),
+                                "script": [r.choice(["auth_fail", {"auth_continue": b"nonce".hex()}])], "refusal": True}, "IRefused")
+            else:
+                act(ops, tcur, {"t": "send", "k": 1, "bytes": sl.frame("IDENTIFY", [("username", "holder")]).hex(), "refusal": True}, "IRefused")
+        for p in probe(tc + at):
+            if p > tcur + 5:
+                ops.append({"t": "until", "ms": p, "tin": "IObserve"})
+        return cfg, ops
     ti = r.choice([tcur + 10, tc + at - 9 if directed else tcur + 130])
     ti = max(ti, tcur + 10)
-    act(ops, ti, {"t": "send", "k": 1, "bytes": sl.frame("IDENTIFY", [("username", "alice")]).hex()}, "IIdentify")
+    if cfg["mod"]:
+        act(ops, ti, {"t": "send", "k": 1, "bytes": sl.frame("AUTH", [("token", "tok")]).hex(), "script": [{"auth_success": b"alice".hex()}]}, "IIdentify")
+    else:
+        act(ops, ti, {"t": "send", "k": 1, "bytes": sl.frame("IDENTIFY", [("username", "alice")]).hex()}, "IIdentify")
     hb = hb_of(cfg, req)
     # authenticated life: a random walk of waits, requests and pongs
     tcur = ti + 20
@@ -108,8 +134,26 @@ def to_term(cfg, ops, ob):
     t_open = None
     mon = []
     had_ping = False
+    t_ack = None          # when CONNECT was acknowledged
+    authed = False
+    t_closed = None
     for op, o in zip(ops, ob["ops"]):
         fr = o["conns"].get("1", {"frames": [], "closed": False})
+        if fr.get("closed") and t_closed is None:
+            t_closed = o["t_end"]
+        for f in fr["frames"]:
+            if "undecodable" in f:
+                continue
+            n0 = sl.frame_name(f)
+            if n0 == "CONNECT_ACK" and t_ack is None:
+                t_ack = o["t_start"]
+            if n0 == "IDENTIFY_ACK" or (n0 == "AUTH_ACK" and sl.frame_get(f, "succeeded") is True):
+                authed = True
+        # the phase deadlines, judged on the implementation alone: whoever has not authenticated authenticate_timeout after
+        # its CONNECT was acknowledged must have been closed by then (5 ms of slack for the observation grid)
+        if t_ack is not None and not authed and t_closed is None and o["t_start"] > t_ack + cfg["auth_timeout_ms"] + 5 and op["tin"] != "PRE":
+            mon.append(f"connection acknowledged at {t_ack} ms never authenticated and is still open at {o['t_start']} ms (authenticate_timeout {cfg['auth_timeout_ms']} ms)")
+            t_closed = -1     # report once
         kinds = []
         for f in fr["frames"]:
             if "undecodable" in f:
@@ -124,6 +168,8 @@ def to_term(cfg, ops, ob):
                     kinds.append("KTimeout")
                 elif reason == b"BAD_REQUEST":
                     kinds.append("KBadPong")
+                elif reason == b"USERNAME_IN_USE" and op.get("refusal"):
+                    pass
                 else:
                     mon.append(f"unexpected ERROR {reason}")
             elif n == "CONNECT_ACK":
